@@ -6,7 +6,7 @@ SPEC = {
     "allowed_axioms": [],
     "harness_pkg": "hx_engine",
     "harness_bin": "engine",
-    "n": {"quick": 600, "thorough": 20000},
+    "n": {"quick": 400, "thorough": 20000},
     "harness_args": {"quick": ["--prop", "C07"], "thorough": ["--prop", "C07"]},
     "harness_timeout": {"quick": 900, "thorough": 6000},
     "trusted_base": [
